@@ -49,7 +49,7 @@ CHECKS = {
          "DESIGN.md §6 C08", "simx"),
  "C09": ("model_checking",
          "stateless deviation-bounded exhaustive exploration of a server-initiated channel close on the real threads",
-         "Three channels on three threads; the server closes channel n while it is idle, has a call in flight, has content half received, or has two consumers attached (the close is an environment action offered from the moment that state exists); the other channels keep making value-carrying calls; afterwards id n is re-opened. Every decision sequence with at most 2 (thorough 3) deviations. Oracle: ServerClosedChannel(n, code, text) on the in-flight/next call, later calls fail, consumers get exactly that terminal message, Channel.CloseOk(n) on the wire, other channels' replies intact, connection closes Ok, id reusable. A sweep over 7 reply codes x 3 texts at bound 0 (thorough 1). Second part: the ids scenario of C10, whose sequences include channels closed by the server (then dropped) and ids reopened explicitly or automatically afterwards.",
+         "Three channels on three threads; the server closes channel n while it is idle, has a call in flight, has content half received, or has two consumers attached (the close is an environment action offered from the moment that state exists); the other channels keep making value-carrying calls; afterwards id n is re-opened. Every decision sequence with at most 2 (thorough 3) deviations. Oracle: ServerClosedChannel(n, code, text) on the in-flight/next call, later calls fail, consumers get exactly that terminal message, Channel.CloseOk(n) on the wire, other channels' replies intact, connection closes Ok, id reusable. A sweep over 7 reply codes x 3 texts at bound 0 (thorough 1). Second part: the ids scenario of C10, whose sequences include channels closed by the server (then dropped) and ids reopened explicitly or automatically afterwards. Third part: the throttle scenario of C18, which includes a server close of a channel while the channels are held back by the high-water mark, with the id reopened under back-pressure.",
          "Bounds: 3 channels; quick tier covers 6 (n, state) pairs, thorough all 12.",
          "DESIGN.md §6 C09", "simx"),
  "C10": ("model_checking",
